@@ -39,6 +39,20 @@ func (c *Config) CountField(name string, opts ...Option) (int, error) {
 		return len(c.fields.array()) + len(c.fields.dict()), nil
 	}
 
+	// with a path separator the name is a path, like for the getters
+	if O := makeOptions(opts); O.pathSep != "" {
+		p := parsePathWithOpts(name, O)
+		v, err := p.GetValue(c, O)
+		if err != nil || v == nil {
+			return -1, raiseMissing(c, name)
+		}
+		n, lerr := v.Len(O)
+		if lerr != nil {
+			return n, convertErr(O, v, lerr, "array")
+		}
+		return n, nil
+	}
+
 	if v, ok := c.fields.get(name); ok {
 		O := makeOptions(opts)
 		n, err := v.Len(O)
